@@ -162,6 +162,26 @@ CHECKS = {
         "Trusted: the shim's pickling isolation; JSON canonicalisation of results. Hash seeds sampled (3 quick / 5 thorough).",
         "DESIGN.md §4 C10",
     ),
+    "C14": (
+        "PBT with independent recomputation + validity predicate: measures (own chi2/Yates -> V,T; scipy kruskal; "
+        "ANOVA eta; 1-r) and pairwise associations recomputed, then every returned / omitted feature must be justified",
+        "Cluster frames (copies, negations, noisy mixtures, bins, merged bins, constants, feature-specific NaN masks) x "
+        "Classification/RegressionSelector x measures x filters x n_best x thresh_corr; several outputs are legal under "
+        "ties, so a predicate is checked rather than one expected list. Exploration. Two open known findings "
+        "(RegressionSelector) are reported as KNOWN-FINDING.",
+        "Trusted: scipy.stats.kruskal/spearmanr and numpy.corrcoef as reference primitives, own chi2. colsample=1, one "
+        "user measure per type.",
+        "DESIGN.md §4 C14",
+    ),
+    "C15": (
+        "metamorphic PBT: paired select() calls on a frame and on re-encodings of it (negation, power-of-two scaling, "
+        "category renaming, row / column permutation) + planted copies / monotone images of the target",
+        "Same frames as C14; the returned list must be identical on both encodings unless independently recomputed "
+        "measures tie; planted features must be returned. Exploration. Three open known findings (RegressionSelector "
+        "default distance_measure) are reported as KNOWN-FINDING.",
+        "Trusted: C14's reference measures for tie detection.",
+        "DESIGN.md §4 C15",
+    ),
     "C04": (
         "PBT with a reference oracle: table-first generated samples, transform(X_train) compared with the "
         "mapping recomputed from values_orders (list+content) only; metamorphic string-form probe",
